@@ -80,6 +80,28 @@ func TestC18Grid(t *testing.T) {
 	}
 	h.RecordGrid("C18", o, c)
 	h.AddExtra("C18", "cold_start_goroutines", len(c.Progs))
+	if h.Thorough() {
+		// three goroutines dividing and squaring shared operands of 33 000 and 66 000 words (scratch requests beyond
+		// 2^15 words): far beyond the generated sizes, once per thorough run
+		g := C18Case{Procs: 4, Pool: []h.Spec{
+			{F: "f", D: h.WordsToDigits(repeatWord(8765432109876543210, 66100)), E: 5, P: 66100 * h.DW, M: 0},
+			{F: "f", D: h.WordsToDigits(repeatWord(3456789012345678901, 33050)), E: -3, P: 33050 * h.DW, M: 0},
+			{F: "f", D: "7", E: 1, P: 1, M: 0},
+		}}
+		for i := 0; i < 3; i++ {
+			// several giant operations in a row per goroutine: a buffer parked by one operation is there to be taken
+			// (by two takers at once) when the next ones start
+			var prog []ConcOp
+			for j := 0; j < 3; j++ {
+				prog = append(prog, ConcOp{K: []string{"quo", "quo", "sqr"}[(i+j)%3], A: []int{(i + j) % 2, 1, 2}, P: uint(33040*h.DW + i + j), M: uint8(i)})
+			}
+			g.Progs = append(g.Progs, prog)
+		}
+		if f := checkC18(g, o); f != nil {
+			h.ReportGridFail(t, "C18", f, mustJSON(g))
+		}
+		h.AddExtra("C18", "giant_concurrent_workloads", 1)
+	}
 }
 
 func at(s []string, i int) string {
